@@ -18,6 +18,17 @@ CHECKS["C02"] = dict(
    note="Trusted: the reference evaluator (model/clause.go). Cell values are limited to one designed 5-row frame and three degenerate frames; enum columns are declared.",
    design="5/C02")
 
+CHECKS["C04"] = dict(
+   technique="explicit enumeration of key patterns x hash-collision patterns against the real hash table through a Comparable seam, plus bounded-exhaustive frames through the public API; partition oracle",
+   text="The repository's hash table is driven with harness-chosen hash values so that every collision pattern (equal 32-bit hashes, same bucket before/after growth, wrap-around) of every key pattern up to 6-8 rows and every growth step is executed, and the public GroupBy/Aggregate/QFrames is run on every frame up to 3 (quick) / 4 (thorough) rows over per-type key alphabets with every key selection, Null setting and 15 aggregations including recording user functions. Oracle: groups = partition by key equality, rows in frame order, aggregates = fold over exactly the group's values.",
+   note="Trusted: partition/fold model in checks/c04.go; overlay seam only re-exports internal/grouper. Real-hash collisions are not searched for; they are modelled at the Comparable seam.",
+   design="5/C04")
+CHECKS["C05"] = dict(
+   technique="same enumerations as C04 with Distinct (table seam with chosen hashes + public API); one-representative-per-class oracle",
+   text="grouper.Distinct under every chosen collision/growth pattern and QFrame.Distinct on every small frame, key selection (including none = all columns), Null setting and index shape; oracle: exactly one unmodified input row per key class.",
+   note="Trusted: partition model; cell values limited to the per-type alphabets.",
+   design="5/C05")
+
 NOT_YET = {}
 BASELINE_CMD = "for m in $(cat /w/out/gomods.txt); do MF=$(cd /repo/$m && . /w/out/goenv.sh && gomodflag); (cd /repo/$m && go test $MF -json -vet=off -count=1 -timeout 25m ./...); done"
 
